@@ -173,6 +173,8 @@ func (mp *MotionProcessor) processConstantRecorder(frame *cptvframe.Frame) {
 	if mp.crFrames > mp.maxFrames {
 		if err := mp.constantRecorder.StopRecording(); err != nil {
 			mp.log.Printf("error with stoping constant recorder: %v", err)
+			// the recorder is closed even when stopping reported an error
+			mp.crFrames = 0
 			return
 		}
 		mp.crFrames = 0
